@@ -27,7 +27,7 @@ import traceback
 
 VERIF = os.path.dirname(os.path.dirname(os.path.abspath(__file__)))
 REPLAYS = os.path.join(VERIF, "replays")
-EVIDENCE = os.path.join(VERIF, "evidence")
+EVIDENCE = os.path.join(VERIF, "evidence") if os.environ.get("VERIF_REPO", "/repo") == "/repo" else "/tmp/mut/evidence-of-scratch-tree"  # evidence is only ever written from runs against /repo itself
 KNOWN = os.path.join(VERIF, "known_findings.json")
 
 
